@@ -59,6 +59,7 @@ pub fn registry() -> Vec<Box<dyn Check>> {
         Box::new(rw::RwCheck { id: "C07S" }),
         Box::new(rw::RwCheck { id: "C05R" }),
         Box::new(rw::RwCheck { id: "C09R" }),
+        Box::new(rw::RwCheck { id: "C20A" }),
         Box::new(rw::StopCheck),
         Box::new(explain::ExplainCheck),
         Box::new(repro::ReproCheck),
